@@ -157,8 +157,8 @@ impl Monitor for C18 {
     }
     fn gens(&self, tier: Tier) -> Vec<(&'static str, u64)> {
         match tier {
-            Tier::Quick => vec![("states_quick", 66), ("seeds", 360), ("clock", 50), ("tensor_random", 2000)],
-            Tier::Thorough => vec![("states_all", (M - 1 + CHUNK - 1) / CHUNK), ("seeds", 6000), ("clock", 1000), ("tensor_random", 50000)],
+            Tier::Quick => vec![("states_quick", 2 + 64 * 16), ("seeds", 3600), ("clock", 200), ("tensor_random", 20_000)],
+            Tier::Thorough => vec![("states_all", (M - 1 + CHUNK - 1) / CHUNK), ("seeds", 60_000), ("clock", 1000), ("tensor_random", 200_000)],
         }
     }
     fn rule(&self) -> &'static str {
@@ -232,7 +232,7 @@ impl Monitor for C18 {
             }
             "clock" => {
                 // all 1e6 clock seeds are split over the cases of this generator
-                let cases = if _tier == Tier::Thorough { 1000 } else { 50 };
+                let cases = if _tier == Tier::Thorough { 1000 } else { 200 };
                 let per = 1_000_000 / 1000; // 1000 seeds per case
                 let mut out = Out::new(format!("clock block {}", idx));
                 let mut n = 0u64;
@@ -323,7 +323,7 @@ impl Monitor for C18 {
             agg.require(visited == M - 1, format!("expected to visit all {} states, visited {}", M - 1, visited));
         } else {
             agg.extra.push(("exhaustive".into(), J::Bool(false)));
-            agg.require(visited >= 4_000_000, format!("visited only {} states", visited));
+            agg.require(visited >= 60_000_000, format!("visited only {} states", visited));
         }
         let classes = agg.set_size("seed_classes");
         agg.require(classes >= 12, format!("only {} seed classes exercised", classes));
